@@ -309,7 +309,7 @@ def Seq.callLoop (c : Nat) : Nat → Seq → Seq
             let ans : PConn.PAns × List (Nat × List UInt8) :=
               if isFailLetter letter then (none, q2.reg)
               else
-                let raw := if q2.stable then ascii ("S" ++ pad st 2) else ascii ("s" ++ pad st 2 ++ "n" ++ pad serial 4)
+                let raw := if q2.stable then ascii ("S" ++ pad st 2 ++ "h" ++ toString hh) else ascii ("s" ++ pad st 2 ++ "n" ++ pad serial 4)
                 let nc := q2.cols.getD st 0
                 let id := PConn.token raw (bindSig st (if q2.stable then 0 else serial) nc)
                 (some (id, nc), (hh, id) :: q2.reg)
